@@ -291,21 +291,27 @@ Proof. exact example_cli. Qed.
 Print Assumptions C20_cli_all_example.
 
 (* ---------- documentation: every stated default, the header kinds ---------- *)
-(* every default stated in docs/arguments.rst and docs/runner.rst, and every default stated in
-   runner.HELP except `--send-bytes ... Default is 18000`, is the effective default (the attribute of
-   Adjustments() built without arguments), the documented literal being read through the cast of its
-   parameter; on every platform *)
-Theorem C20_docs_defaults_partial : forall e,
+(* every default stated in docs/arguments.rst, docs/runner.rst and runner.HELP -- every row, no exception --
+   is the effective default (the attribute of Adjustments() built without arguments), the documented literal
+   being read through the cast of its parameter; on every platform *)
+Theorem C20_docs_defaults : forall e,
   (forall r, In r docs_defaults -> doc_row_ok e r = true)
   /\ (forall r, In r runner_rst_defaults -> doc_row_ok e r = true)
-  /\ (forall r, In r help_defaults -> r <> help_send_bytes_row -> doc_row_ok e r = true).
+  /\ (forall r, In r help_defaults -> doc_row_ok e r = true).
 Proof. exact docs_defaults_ok. Qed.
-Print Assumptions C20_docs_defaults_partial.
+Print Assumptions C20_docs_defaults.
 
-(* the excluded row is wrong: send_bytes does not default to 18000 (finding kf_c20_help_send_bytes) *)
-Theorem C20_docs_defaults_refuted : forall e, doc_row_ok e help_send_bytes_row = false.
-Proof. exact help_send_bytes_refuted. Qed.
+(* regression witness of the old HELP text (`--send-bytes ... Default is 18000`, repaired by /repo fix
+   fd812c0): that row is wrong on every platform, so C20_docs_defaults stops holding if it comes back *)
+Theorem C20_docs_defaults_refuted : forall e, doc_row_ok e old_help_send_bytes_row = false.
+Proof. exact old_help_send_bytes_refuted. Qed.
 Print Assumptions C20_docs_defaults_refuted.
+
+Theorem C20_docs_defaults_old_row_absent :
+  ~ In old_help_send_bytes_row docs_defaults /\ ~ In old_help_send_bytes_row runner_rst_defaults
+  /\ ~ In old_help_send_bytes_row help_defaults.
+Proof. exact old_help_send_bytes_absent. Qed.
+Print Assumptions C20_docs_defaults_old_row_absent.
 
 (* the implemented proxy header kinds are the six the property names; arguments.rst, runner.HELP and
    runner.rst each name exactly those *)
